@@ -26,6 +26,9 @@ RULE = ("for each of the three field configurations (pysnark.zkinterface.backend
 CONFIGS = ["zkinterface", "zkifbellman", "zkifbulletproofs"]
 
 
+LIGHT_OPS = [n for n in ir.OPS if n not in ("poseidon", "poseidon1", "permute", "ggh")]
+
+
 def check_file(msgs, expect_kinds, ref, p, label):
     kinds = [k for k, _ in msgs]
     # the format allows a constraint system to be spread over several ConstraintSystem messages: they are concatenated
@@ -204,7 +207,8 @@ def shard(name, seed, n_examples, programs):
             if programs:
                 cfg = ir.gen_cfg(draw, st, small_ok=False)
                 cfg["p"] = fieldname
-                m, labels = ir.generate(draw, st, cfg, draw(st.integers(1, 6)))
+                cfg["b"] = min(cfg["b"], 32)     # file encoding is judged here: hash gadgets and 64-bit comparisons only add bulk
+                m, labels = ir.generate(draw, st, cfg, draw(st.integers(1, 6)), ops=LIGHT_OPS)
                 trace = backends.trace_from_recorder(m.ns.rec.snapshot())
                 lab = ("source:program", "config:" + name)
             else:
